@@ -74,8 +74,42 @@ def render_arguments(I, st, caller, fa):
             s, st = render_value(I, st, caller, a.fields[0], a.fields[1])
             parts.append(s)
             i += 1
+        elif b >= 0xC0:
+            # placeholder with options: 0b11 | precision-indirect | width-indirect | arg_index | precision | width | flags
+            i += 1
+            prec = None
+            if b & 0x30:
+                raise Unencodable("format placeholder with a dynamic width or precision")
+            if b & 0x01:
+                flags = int.from_bytes(bytes(tpl[i:i + 4]), "little")
+                i += 4
+                # default flags: fill ' ' (0x20), alignment unknown (bits 29-30 set): anything else (sign, alternate, zero pad, debug hex) is not modelled
+                if flags & 0x1FE00000:
+                    raise Unencodable("format placeholder flags 0x%08x" % flags)
+            if b & 0x02:
+                width = int.from_bytes(bytes(tpl[i:i + 2]), "little")
+                i += 2
+                if width:
+                    raise Unencodable("format placeholder with a width (padding is not modelled)")
+            if b & 0x04:
+                prec = int.from_bytes(bytes(tpl[i:i + 2]), "little")
+                i += 2
+            if b & 0x08:
+                ai = int.from_bytes(bytes(tpl[i:i + 2]), "little")
+                i += 2
+            if ai >= len(args):
+                raise Unencodable("format template uses more arguments than given")
+            a = args[ai]
+            ai += 1
+            s, st = render_value(I, st, caller, a.fields[0], a.fields[1])
+            if prec is not None:
+                t = norm_type(a.fields[0].lstrip("&"))
+                if t not in ("String", "str"):
+                    raise Unencodable("precision on a %s argument" % t)
+                s = sstr.truncate(s, prec)
+            parts.append(s)
         else:
-            raise Unencodable("format template opcode 0x%02x (width/precision/positional arguments are not modelled)" % b)
+            raise Unencodable("format template opcode 0x%02x (long literal pieces are not modelled)" % b)
     return sstr.concat(parts), st
 
 
@@ -107,6 +141,18 @@ def fmt_models(I, st, caller, func, args, argtys, dest_ty):
             I.store(st2, args[0], sstr.concat([acc, s]))
             return ret(st2, EnumV("Result", 0, {0: (UNIT,)}))
         return None
+    if re.match(r"^(String|str|core::str::<impl str>)::is_empty$", f):
+        v = deref_all(I, st, args[0])
+        if isinstance(v, sstr.SymStr):
+            return ret(st, (v.length == 0) if z3.is_expr(v.length) else z3.BoolVal(v.length == 0))
+    if re.match(r"^(String|str|core::str::<impl str>|alloc::str::<impl str>)::(to_ascii_lowercase|to_ascii_uppercase|to_lowercase|to_uppercase)$", f):
+        v = deref_all(I, st, args[0])
+        if isinstance(v, sstr.SymStr):
+            lower = "lower" in f
+            if not f.endswith(("to_ascii_lowercase", "to_ascii_uppercase")):
+                raise Unencodable("Unicode case mapping")
+            fn = (lambda c: z3.If(z3.And(c >= 65, c <= 90), c + 32, c)) if lower else (lambda c: z3.If(z3.And(c >= 97, c <= 122), c - 32, c))
+            return ret(st, sstr.map_chars(v, fn, "lower" if lower else "upper"))
     if re.match(r"^(std::fmt::)?Formatter::<'_>::write_str$", f):
         acc = I.load(st, args[0])
         I.store(st, args[0], sstr.concat([acc, as_symstr(I, st, args[1])]))
